@@ -16,6 +16,13 @@ PYNAME = {"generating": "get_generating_symbols", "nullable": "get_nullable_symb
 
 def gen_history(rng):
     spec = G.gen_cfg(rng, max_vars=3, max_prods=6, adversarial=False)
+    if rng.random() < 0.3:
+        # a body that repeats a nullable variable next to a non-nullable symbol: the counters of such a production
+        # are touched several times by one run
+        vs = sorted({h for h, _ in spec["prods"]})
+        a = rng.choice(vs)
+        spec["prods"].append([a, []])
+        spec["prods"].append([spec["start"], [["v", a], ["v", a], rng.choice([["t", "b"], ["v", rng.choice(vs)]])]])
     ters = sorted({x for _, b in spec["prods"] for k, x in b if k == "t"}) or ["a"]
     ops = []
     for _ in range(rng.randint(3, 12)):
